@@ -304,6 +304,97 @@ async fn one_config(a: Args, idx: usize, proto: Proto, transport: Transport) -> 
     rep
 }
 
+
+/// Datagram bindings (VMess / Trojan datagram-in-stream: one connection to the server per local binding). The client
+/// cannot know when an application has closed its UDP socket, but its binding table is bounded (64): a binding that
+/// leaves the table has ended, and its connection, its tasks and the server's side of it must be released. 90
+/// applications send one datagram each; afterwards at most 64 bindings may still hold a connection.
+async fn datagram_bindings(a: Args, idx: usize, proto: Proto, transport: Transport) -> Report {
+    use super::c02::{make_payload, socks5_udp, start_udp_target};
+    let mut rep = Report::new();
+    let mut rng = Rng::derive(a.seed, 0xC15B, idx as u64);
+    let cfg = Cfg::random(&mut rng, proto, if matches!(proto, Proto::Vmess(_)) { 1 } else { 0 });
+    let dir = work_dir(&a, &format!("c15b-{idx}"));
+    let d = Deploy::new(cfg, transport, true, 2, &dir);
+    let cfgname = format!("{}|{}|datagram-bindings", proto.name(), transport.name());
+    let (dd, tag) = (d.clone(), format!("c15b-{idx}"));
+    let mut pair = match tokio::task::spawn_blocking(move || start_pair(&dd, &tag)).await.unwrap() {
+        Ok(p) => p,
+        Err(e) => {
+            rep.inconclusive(format!("{cfgname}: nodes do not start: {}", e.lines().next().unwrap_or("")));
+            return rep;
+        }
+    };
+    let nonce = rng.next_u64();
+    let Ok(target) = start_udp_target(nonce, 0, 1, false).await else {
+        rep.inconclusive("udp target");
+        return rep;
+    };
+    let exchange = |s: Arc<tokio::net::UdpSocket>, app: u16, cport: u16, tport: u16| async move {
+        let mut buf = vec![0u8; 4096];
+        for seq in 0..3u32 {
+            let p = make_payload(nonce, app, 0, seq, 100, 0);
+            let _ = s.send_to(&socks5_udp("127.0.0.1", tport, &p), ("127.0.0.1", cport)).await;
+            if tokio::time::timeout(Duration::from_millis(1500), s.recv_from(&mut buf)).await.is_ok() {
+                return true;
+            }
+        }
+        false
+    };
+    // warm-up and baseline
+    let w = Arc::new(tokio::net::UdpSocket::bind("127.0.0.1:0").await.unwrap());
+    if !exchange(w.clone(), 1, d.client_port, target.port).await {
+        rep.inconclusive(format!("{cfgname}: the datagram relay does not work (judged by C02)"));
+        return rep;
+    }
+    let Some(baseline) = settle(&pair, Duration::from_secs(1), Duration::from_secs(15)).await else {
+        rep.inconclusive("baseline never settled");
+        return rep;
+    };
+    let n_apps = 90usize;
+    let mut socks = Vec::new();
+    let mut answered = 0;
+    for app in 0..n_apps {
+        let s = Arc::new(tokio::net::UdpSocket::bind("127.0.0.1:0").await.unwrap());
+        if exchange(s.clone(), 10 + app as u16, d.client_port, target.port).await {
+            answered += 1;
+        }
+        socks.push(s); // the application keeps its socket: only the table's bound ends bindings
+        rep.evaluations += 1;
+    }
+    rep.mon("datagram_bindings_opened", n_apps as u64);
+    rep.mon("datagram_bindings_answered", answered);
+    let after = settle(&pair, Duration::from_secs(2), Duration::from_secs(30)).await;
+    match after {
+        None => rep.inconclusive("descriptor counts never settled after the bindings"),
+        Some(u) => {
+            let held_client = u.client.tcp as i64 - baseline.client.tcp as i64;
+            let held_server = u.server.tcp as i64 - baseline.server.tcp as i64;
+            let held_server_udp = u.server.udp as i64 - baseline.server.udp as i64;
+            rep.extra.insert(format!("resources:{cfgname}"), json!({"bindings_opened": n_apps, "table_bound": 64, "connections_still_held_by_the_client": held_client, "by_the_server": held_server, "server_udp_sockets": held_server_udp}));
+            rep.mon("resource_samples_settled", 1);
+            // quic keeps its connections inside one UDP socket: the TCP count says nothing there
+            if transport != Transport::Quic && (held_client > 64 + 2 || held_server > 64 + 2) {
+                rep.violation(format!("C15|{}|bindings-that-left-the-table-keep-their-connection", cfgname), format!("{cfgname}: after {n_apps} datagram bindings (table bound 64) the client still holds {held_client} and the server {held_server} connections above the baseline"), json!({"seed": a.seed, "deploy": d.describe(), "baseline": format!("{:?}", baseline), "after": diff(&u, &baseline)}));
+            }
+            if held_server_udp > 64 + 2 {
+                rep.violation(format!("C15|{}|server-keeps-the-sockets-of-ended-bindings", cfgname), format!("{cfgname}: the server still holds {held_server_udp} UDP sockets above the baseline for at most 64 live bindings"), json!({"seed": a.seed, "deploy": d.describe(), "after": diff(&u, &baseline)}));
+            }
+        }
+    }
+    rep.case(&(idx, "datagram-bindings"), answered > 0);
+    for (who, node) in [("client", &mut pair.client), ("server", &mut pair.server)] {
+        if !node.alive() {
+            rep.violation(format!("C15|{}|{}-exited", cfgname, who), format!("{who} exited"), json!({"log": node.log_tail(10)}));
+        }
+    }
+    drop(socks);
+    drop(target);
+    drop(pair);
+    let _ = std::fs::remove_dir_all(&dir);
+    rep
+}
+
 pub async fn run(a: &Args) -> Report {
     // one cipher per protocol over every transport (quick: a rotating subset); all ciphers over tcp in thorough
     let protos = [Proto::Ss(refimpl::ss::Method::B3Aes128Gcm), Proto::Ss(refimpl::ss::Method::ChaCha20IetfPoly1305), Proto::Vmess(3), Proto::Trojan];
@@ -334,6 +425,20 @@ pub async fn run(a: &Args) -> Report {
         hs.push(tokio::spawn(async move {
             let _g = sem.acquire_owned().await.unwrap();
             one_config(a, idx, p, t).await
+        }));
+    }
+    let mut bind_cfgs = vec![(Proto::Vmess(3), [Transport::Tcp, Transport::Ws, Transport::Tls][a.seed as usize % 3]), (Proto::Trojan, [Transport::Tls, Transport::Wss][a.seed as usize % 2])];
+    if a.thorough {
+        bind_cfgs = vec![(Proto::Vmess(3), Transport::Tcp), (Proto::Vmess(4), Transport::Tls), (Proto::Vmess(3), Transport::Ws), (Proto::Vmess(4), Transport::Wss), (Proto::Trojan, Transport::Tls), (Proto::Trojan, Transport::Wss), (Proto::Vmess(3), Transport::Quic), (Proto::Trojan, Transport::Quic)];
+    }
+    for (k, (p, t)) in bind_cfgs.into_iter().enumerate() {
+        if only.is_some() {
+            break;
+        }
+        let (a, sem) = (a.clone(), sem.clone());
+        hs.push(tokio::spawn(async move {
+            let _g = sem.acquire_owned().await.unwrap();
+            datagram_bindings(a, 500 + k, p, t).await
         }));
     }
     let mut rep = Report::new();
